@@ -27,7 +27,7 @@ PROPS = {
         "design_ref": "DESIGN.md §3.2, §4 C09",
     },
     "C17": {
-        "rules": ["FRESHNAME", "PRINTPARSE", "PREC", "FIELDS", "EXH"],
+        "rules": ["FRESHNAME", "PRINTSCOPE", "PRINTPARSE", "PREC", "FIELDS", "EXH"],
         "thorough": [],
         "technique": "static analysis: fresh-name registry rule, precedence-table embedding, per-constructor field coverage of the printer",
         "level_text": "Structural clauses only: (1) the name disambiguator records every identifier it issues (distinct Syms never share a printed "
@@ -56,7 +56,7 @@ PROPS = {
         "design_ref": "DESIGN.md §3.14, §4 C02",
     },
     "C15": {
-        "rules": ["BACKPIPE", "TRAV@C15", "TRAVBASE", "MEMGATE", "CALLBOUNDARY", "TYPETABLES", "CONDSPEC", "BASEKEY", "ENVNAME", "DECLUSESYNC", "EXH", "FRESHNAME"],
+        "rules": ["BACKPIPE", "TRAV@C15", "TRAVBASE", "MEMGATE", "CALLBOUNDARY", "TYPETABLES", "CONDSPEC", "PRECSOURCE", "BASEKEY", "ENVNAME", "DECLUSESYNC", "EXH", "FRESHNAME"],
         "thorough": [],
         "technique": "static analysis: pipeline def-use chain, traversal completeness of the global collectors, gate-dominance and call-boundary checks, type-table agreement",
         "level_text": "Structural clauses: every compiled procedure (transitively) passes Parallel/Precision/Window/Memory analysis in that order before "
@@ -111,7 +111,7 @@ PROPS = {
         "design_ref": "DESIGN.md §3.18, §4 C18",
     },
     "C16": {
-        "rules": ["CHILDREN", "FINDORDER", "COUNTGROUP", "FALSYZERO", "PASTTOTAL", "NOMATCH", "EXH", "FIELDS"],
+        "rules": ["CHILDREN", "FINDORDER", "COUNTGROUP", "NAVATTR", "FALSYZERO", "PASTTOTAL", "NOMATCH", "EXH", "FIELDS"],
         "thorough": [],
         "technique": "static analysis: ADT-order agreement of the child enumerator, call-order rule for the search recursion, table totality, dispatch exhaustiveness and per-case field coverage of the matcher",
         "level_text": "Structural clauses of find(): the child enumerator yields, for every constructor, exactly the ADT's child fields in declaration (= program) order; "
@@ -124,7 +124,7 @@ PROPS = {
         "design_ref": "DESIGN.md §3.17, §4 C16",
     },
     "C05": {
-        "rules": ["FIELDS", "ZIPLEN", "REPLSCOPE", "CALLPRED", "HOLESIB", "BUFBIND", "CONDSPEC", "EXH", "TRAV@C05"],
+        "rules": ["FIELDS", "ZIPLEN", "REPLSCOPE", "CALLPRED", "HOLESIB", "BUFBIND", "NAMECONF", "CONDSPEC", "EXH", "TRAV@C05"],
         "thorough": [],
         "technique": "static analysis: per-constructor field coverage of both unification operands, length-guard rule for zips over IR lists, edit-scope and sibling-agreement rules, call-site assertion-discharge rule",
         "level_text": "Structural clauses of replace(): every constructor case of unification reads every semantic field of both operands; no two IR child lists are zipped without an "
@@ -176,7 +176,7 @@ PROPS = {
         "design_ref": "DESIGN.md §3.19, §4 C19",
     },
     "C12": {
-        "rules": ["NAMECONF", "DELGUARD", "MODGUARD", "DIVACCOUNT", "ALGID", "CONDSPEC", "EXH", "TRAV@C12"],
+        "rules": ["NAMECONF", "DELGUARD", "MODGUARD", "DIVACCOUNT", "FACTSTATE", "ALGID", "CONDSPEC", "EXH", "TRAV@C12"],
         "thorough": [],
         "technique": "static analysis: identity-by-printed-name rule with triaged site table; dominance (must-facts with branch conditions) of literal tests over every delete/move in simplify; exhaustiveness/traversal of the two rewriters",
         "level_text": "Structural clauses: every place where simplify (or a rewrite it relies on) decides expression identity through printed names is enumerated and classified; "
@@ -216,7 +216,7 @@ PROPS = {
         "design_ref": "DESIGN.md §3.12, §4 C06",
     },
     "C01": {
-        "rules": ["GUARD", "CONDSPEC", "PREDSPEC", "CHECKFORM", "CTXSHAPE", "ENVSHADOW", "EQVSHAPE", "ALIASCLOSED", "WINCOMPOSE", "ZIPLEN", "NAMECONF", "FIELDS", "VERDICT", "VERDICTUSE", "LAYER", "CHILDREN", "READKINDS", "EXH", "TRAV@C01", "TRAVBASE", "BYPASS"],
+        "rules": ["GUARD", "CONDSPEC", "PREDSPEC", "CHECKFORM", "CTXSHAPE", "ENVSHADOW", "EQVSHAPE", "ALIASCLOSED", "WINCOMPOSE", "STRIDEKNOWN", "ZIPLEN", "NAMECONF", "FIELDS", "VERDICT", "VERDICTUSE", "LAYER", "CHILDREN", "READKINDS", "EXH", "TRAV@C01", "TRAVBASE", "BYPASS"],
         "thorough": [],
         "technique": "static analysis: per-primitive obligation table decided by a must-analysis (dominance of side conditions over tree edits, with raising guards, flag assumptions and check-argument provenance), plus comparison/identity/verdict/layering/traversal rules",
         "level_text": "Structural clauses, decided for all programs and schedules from the source: every scheduling primitive reaches its tree edits only through the side conditions "
